@@ -21,6 +21,7 @@ import SympdeModel.Model.Union
 import SympdeModel.Model.Export
 import SympdeModel.Model.Memo
 import SympdeModel.Model.Broadcast
+import SympdeModel.Model.Pullback
 open Sympde
 
 def dispatch (line : String) : String :=
@@ -46,6 +47,7 @@ def dispatch (line : String) : String :=
       | "C15" => Export.handle args
       | "C12" => Memo.handle args
       | "C16" => Bcast.handle args
+      | "C03" => PB.handle args
       | _ => "bad-model"
   | some _ => "bad-line"
 
